@@ -12,20 +12,87 @@ import vlib
 PID = "C04"
 FILES = ["theories/Properties/C04.v", "theories/Examples/C04Examples.v", "theories/Examples/C04Wirings.v"]
 
-_cur = {"fk": set(), "back": set()}   # (root, field) of fk fields / (root, set) of back-reference sets of the current schema
+# (root, field) of fk fields / (root, set) of back-reference sets / (child store, field) of fk fields that live in a child
+# bucket, of the current schema
+_cur = {"fk": set(), "back": set(), "cfk": set()}
+
+
+def own_child_field(sd, field):
+    """the field is declared by the child store itself (it lives in the child bucket: CF facts)"""
+    return bool(sd["parent"]) and any(fn == field for fn, _ in sd["fields"])
 
 
 def fk_names(sch):
-    fk, back = set(), set()
+    fk, back, cfk = set(), set(), set()
     for sname in sch.order:
         sd = sch.stores[sname]
         for c in sd["cons"]:
+            if c[0] in ("FI", "FC"):
+                if own_child_field(sd, c[1]):
+                    cfk.add((sname, c[1]))
+                else:
+                    fk.add((sch.root(sname), c[1]))
+                if c[0] == "FI":
+                    back.add((sch.root(c[2]), c[3]))
+    return fk, back, cfk
+
+
+def c04_fk_oracle(sch, facts):
+    """targets exist, back-reference sets are exact - for edges between root stores AND edges that start or end at a
+    child store: the referrers of an edge declared on a child store over a field of its own are the entities with data
+    in that child store (the value lives in the child bucket); the target of an edge that ends at a child store must
+    have data in THAT store (IsEntityPresent of the linked store), a back-reference set of such a target is projected
+    by the harness to the same S:<root>:<id>:<set> facts"""
+    probs = []
+    ents, fvals, cvals, setm, child = {}, {}, {}, {}, set()
+    for f in facts:
+        p = f.split(":")
+        if p[0] == "E":
+            ents.setdefault(p[1], set()).add(p[2])
+        elif p[0] == "F":
+            fvals[(p[1], p[2], p[3])] = p[4]
+        elif p[0] == "CF":
+            cvals[(p[1], p[2], p[3], p[4])] = p[5]
+        elif p[0] == "S":
+            setm.setdefault((p[1], p[2], p[3]), set()).add(p[4])
+        elif p[0] == "C":
+            child.add((p[1], p[2], p[3]))
+    for sname in sch.order:
+        sd = sch.stores[sname]
+        root = sch.root(sname)
+        for c in sd["cons"]:
+            if c[0] not in ("FI", "FC"):
+                continue
+            field, target = c[1], c[2]
+            troot = sch.root(target)
+            tchild = sch.stores[target]["parent"] is not None
+            own = own_child_field(sd, field)
+
+            def in_target(t):
+                return t in ents.get(troot, ()) and (not tchild or (troot, t, target) in child)
+
+            refs = {}
+            for i in ents.get(root, ()):
+                if own:
+                    if (root, i, sname) not in child:
+                        continue
+                    v = cvals.get((root, i, sname, field), "absent")
+                else:
+                    v = fvals.get((root, i, field), "absent")
+                if v.startswith("s") and v != "s-":
+                    t = v[1:]
+                    if not in_target(t):
+                        probs.append("fk %s.%s: entity %s references missing %s %s" % (sname, field, i, target, t))
+                    refs.setdefault(t, set()).add(i)
             if c[0] == "FI":
-                fk.add((sch.root(sname), c[1]))
-                back.add((sch.root(c[2]), c[3]))
-            elif c[0] == "FC":
-                fk.add((sch.root(sname), c[1]))
-    return fk, back
+                back = c[3]
+                for t in ents.get(troot, ()):
+                    have = setm.get((troot, t, back), set())
+                    want = refs.get(t, set())
+                    if have != want:
+                        probs.append("fk %s.%s: back-references %s.%s of %s are %s, referrers are %s" % (
+                            sname, field, target, back, t, sorted(have), sorted(want)))
+    return probs
 
 
 def proj(facts):
@@ -36,6 +103,8 @@ def proj(facts):
         if p[0] == "E" or p[0] == "C":
             out.append(f)
         elif p[0] == "F" and (p[1], p[3]) in _cur["fk"]:
+            out.append(f)
+        elif p[0] == "CF" and (p[3], p[4]) in _cur["cfk"]:
             out.append(f)
         elif p[0] == "S" and (p[1], p[3]) in _cur["back"]:
             out.append(f)
@@ -119,7 +188,7 @@ def ents(facts):
 
 
 def oracle(sch, txs, io, mo):
-    _cur["fk"], _cur["back"] = fk_names(sch)
+    _cur["fk"], _cur["back"], _cur["cfk"] = fk_names(sch)
     out = []
     prev_i, prev_m = (), ()
     for k, a in enumerate(io):
@@ -135,7 +204,7 @@ def oracle(sch, txs, io, mo):
             break
         same_pre = b is not None and proj(prev_i) == proj(prev_m)
         if a["commit"]:
-            probs = storefam.fk_oracle(sch, a["facts"])
+            probs = c04_fk_oracle(sch, a["facts"])
             if probs:
                 kind = "backrefs" if "back-references" in probs[0] else "target-missing"
                 out.append(("C04:fk-" + kind, "after a committed transaction: " + "; ".join(probs[:3]), k))
@@ -268,6 +337,28 @@ def shrink_replays(c, tmp, budget_s=20):
                 json.dump(rp, f, indent=1, sort_keys=True)
 
 
+def schema_tie(c):
+    """the schemas of Examples/C04Wirings.v between the markers are the derived schemas of the harness wirings C04cp / C04cx /
+    C04cd: regenerate the Coq text from the wirings (sub-command c04-coqschema) and compare (white space normalised)"""
+    harness = os.path.join(vlib.BUILD, "storageharness")
+    if not os.path.exists(harness):
+        return
+    d = os.path.join(c.work, "coqschema")
+    os.makedirs(d, exist_ok=True)
+    rc, out = vlib.run([harness, "c04-coqschema", "--out", d], timeout=60)
+    src = open(os.path.join(vlib.COQ, "theories", "Examples", "C04Wirings.v")).read()
+    have = None
+    if "(* generated: begin *)" in src and "(* generated: end *)" in src:
+        have = src.split("(* generated: begin *)", 1)[1].split("(* generated: end *)", 1)[0]
+    want = open(os.path.join(d, "schemas.v.txt")).read() if rc == 0 and os.path.exists(os.path.join(d, "schemas.v.txt")) else None
+    c.cov["schema_tie"] = "Examples/C04Wirings.v generated block == c04-coqschema of the harness wirings C04cp, C04cx, C04cd"
+    if have is None or want is None or " ".join(have.split()) != " ".join(want.split()):
+        c.violation(PID + ":wiring-schema-drift",
+                    "the schemas of Examples/C04Wirings.v (wf_* computations, guard instances) are not the derived schemas of the "
+                    "harness wirings C04cp / C04cx / C04cd any more: regenerate the block with `storageharness c04-coqschema`",
+                    dict(correspondence="Examples/C04Wirings.v generated block vs harness wirings", log=(out or "")[-800:]), no_input=True)
+
+
 def main(argv):
     c = vlib.Check(PID, argv)
     c.assumptions = ["bbolt rollback restores the previous content (trusted; observed by the full traversal after every transaction)",
@@ -305,6 +396,8 @@ def main(argv):
             "transitive referrers, a refused operation changed nothing, no delete fails with an unclassified error.",
             trusted_extra=["harness store_c04.go (C04 generator, child-process isolation: a dead child is reported as CRASH)"],
             subcmd="store-iso", tmpdir=tmp, extra_args=["--case-timeout", "8"])
+        if not c.replay:
+            schema_tie(c)
         if c.violations and not c.replay:
             shrink_replays(c, tmp)
     finally:
